@@ -631,7 +631,55 @@ pub fn run_c18(ctx: &mut Ctx) {
     }
     model_batch(ctx, &runs, &traces, "c18");
     reset_pairs(ctx, &mut rng);
+    low_level_terminal(ctx, &files);
     ctx.rep.sample(J::obj().set("prefix", J::s("ri,nf00,fin")).set("continuation", J::s("fi,nr,nf00")));
+}
+
+/// the low-level decoder after its terminal event (fatal error or ImageEnd): every further `update` - with no bytes, one byte,
+/// the whole file - returns an error and appends no image data
+fn low_level_terminal(ctx: &mut Ctx, files: &[corpus::TestFile]) {
+    for f in files {
+        for piece in [1usize, 7, 4096] {
+            ctx.rep.eval(true, fnv64(&f.bytes) ^ (piece as u64).wrapping_mul(0x9e37));
+            ctx.rep.count("low-level", "terminal-then-continue");
+            let bytes = f.bytes.clone();
+            let r = guarded(move || -> Option<String> {
+                let mut dec = png::StreamingDecoder::new();
+                let mut img = vec![];
+                let mut buf = &bytes[..];
+                let mut terminal = false;
+                while !buf.is_empty() && !terminal {
+                    let n = piece.min(buf.len());
+                    match dec.update(&buf[..n], &mut img) {
+                        Ok((_, png::Decoded::ImageEnd)) => terminal = true,
+                        Ok((k, _)) => buf = &buf[k..],
+                        Err(_) => terminal = true,
+                    }
+                }
+                if !terminal {
+                    return None; // the file simply ends (truncated): not a terminal event
+                }
+                for round in 0..2 {
+                    let conts: [&[u8]; 5] = [&[], &bytes[..1], &[], &bytes[..], &[]];
+                    for (ci, c) in conts.iter().enumerate() {
+                        let before = img.len();
+                        match dec.update(c, &mut img) {
+                            Ok(x) => return Some(format!("round {} continuation #{} ({} bytes) returned Ok({:?})", round, ci, c.len(), x)),
+                            Err(_) if img.len() != before => return Some(format!("round {} continuation #{} appended image data", round, ci)),
+                            Err(_) => {}
+                        }
+                    }
+                }
+                None
+            });
+            let case = J::obj().set("kind", J::s("low-level-terminal")).set("file", J::s(&hex(&f.bytes))).set("piece", J::i(piece as u64));
+            match r {
+                Err(p) => ctx.rep.violation("oracle", "low-level/panic-after-terminal", &format!("panic: {}", p), case),
+                Ok(Some(w)) => ctx.rep.violation("oracle", "low-level/success-after-terminal", &format!("StreamingDecoder after its terminal event (pieces of {}): {}", piece, w), case),
+                Ok(None) => {}
+            }
+        }
+    }
 }
 
 fn panic_key(site: &str) -> String {
@@ -653,6 +701,17 @@ fn reset_pairs(ctx: &mut Ctx, rng: &mut Rng) {
         let at = r.usize(8, n - 1);
         c[at] ^= 0x40;
         pool.push(c);
+    }
+    // streams whose only fault is a wrong Adler-32 (accepted by a new decoder: checksum ignored by default) - the settings of
+    // the decompressor have to be re-applied after a reset
+    for i in 0..ctx.n(2, 6) {
+        let mut r = rng.fork(990 + i as u64);
+        let img = Img::random(&mut r, [0u8, 2, 6][i % 3], 8, 9, 9);
+        let (raw, _) = scanlines(&img, false, &Filters::Random, &mut r);
+        let mut z = zlib_stream(&raw, &if i % 2 == 0 { Deflater::Stored(65535) } else { Deflater::Level(6) });
+        let n = z.len();
+        z[n - 1] ^= 0x5a;
+        pool.push(serialize(&[ihdr(img.w, img.h, img.depth, img.color, 0), RawChunk::new(b"IDAT", z), RawChunk::new(b"IEND", vec![])]));
     }
     let fresh: Vec<String> = pool.iter().map(|b| crate::props::c04::run_streaming(b, &[], &DEFAULT_OPTS)).collect();
     for (ai, a) in pool.iter().enumerate() {
@@ -1056,12 +1115,52 @@ fn directed_probes(ctx: &mut Ctx) {
             ctx.rep.violation("oracle", &format!("panic/{}", panic_key(&site)), &format!("probe {}: [{}]: {}", name, rops::ops_string(&ops), site), case(&file, v0, &ops, &c));
         }
     }
+    // extreme header geometry (each dimension at the edges of u32 and of the Adam7 8x8 grid), both interlace methods:
+    // no arithmetic on width/height may overflow before the limits are charged
+    let edge: [u32; 12] = [1, 2, 7, 8, 9, 0xFFFF, 0x1_0000, 0x7FFF_FFFF, 0x8000_0000, 0xFFFF_FFF8, 0xFFFF_FFF9, 0xFFFF_FFFF];
+    for &w in &edge {
+        for &h in &edge {
+            if w < 0xFFFF && h < 0xFFFF {
+                continue;
+            }
+            for il in [0u8, 1] {
+                for (d, col) in [(8u8, 0u8), (1, 0), (16, 6), (2, 3)] {
+                    let mut cs = vec![ihdr(w, h, d, col, il)];
+                    if col == 3 {
+                        cs.push(RawChunk::new(b"PLTE", vec![1, 2, 3, 4, 5, 6]));
+                    }
+                    cs.push(RawChunk::new(b"IDAT", z.clone()));
+                    cs.push(RawChunk::new(b"IEND", vec![]));
+                    let file = serialize(&cs);
+                    for (limit, flags) in [(None, 0u8), (Some(1usize << 20), 1)] {
+                        let ops = vec![Op::ReadInfo, Op::NextRow, Op::ReadRow, Op::NextFrameInfo, Op::NextFrame(0), Op::NextRow, Op::Finish];
+                        let mut c = Config::default();
+                        c.flags = flags;
+                        c.limit = limit;
+                        let t = rops::run_ops(&file, file.len(), &ops, &c);
+                        ctx.rep.eval(true, fnv64(&file) ^ flags as u64);
+                        ctx.rep.count("directed probe", "extreme-geometry");
+                        if t.panicked {
+                            let site = t.tokens.last().cloned().unwrap_or_default();
+                            ctx.rep.violation("oracle", &format!("panic/{}", panic_key(&site)), &format!("probe extreme-geometry {}x{} d{} c{} il{}: [{}]: {}", w, h, d, col, il, rops::ops_string(&ops), site), case(&file, file.len(), &ops, &c));
+                        }
+                    }
+                }
+            }
+        }
+    }
     let _ = cfg;
 }
 
 // ------------------------------------------------------------------------------------------------
 
 pub fn replay(prop: &str, ctx: &mut Ctx, c: &J) {
+    if c.get("kind").and_then(|k| k.as_str()) == Some("low-level-terminal") {
+        let bytes = c.get("file").and_then(|f| f.as_str()).and_then(unhex).unwrap_or_default();
+        let f = corpus::TestFile { bytes, source: "replay".into(), model_domain: false };
+        low_level_terminal(ctx, &[f]);
+        return;
+    }
     if c.get("kind").and_then(|k| k.as_str()) == Some("reset") {
         let a = c.get("a").and_then(|f| f.as_str()).and_then(unhex).unwrap_or_default();
         let b = c.get("b").and_then(|f| f.as_str()).and_then(unhex).unwrap_or_default();
